@@ -68,7 +68,10 @@ def parseHex (s : String) : Option Bytes :=
   | _ => none
 
 def parseHexStr (s : String) : Option String :=
-  (parseHex s).map fun b => String.ofList (b.map fun x => Char.ofNat x.toNat)
+  (parseHex s).map fun b =>
+    match String.fromUTF8? ⟨b.toArray⟩ with
+    | some str => str
+    | none => String.ofList (b.map fun x => Char.ofNat x.toNat)
 
 def hexOf (b : Bytes) : String := "x" ++ b.toHex
 def hexOfStr (s : String) : String := hexOf (s.toUTF8.toList)
@@ -240,6 +243,28 @@ partial def showValT : Ty → Val → String
 partial def showFieldsT : Fields → List Val → List String
   | (_, _, t) :: r, v :: vs => showValT t v :: showFieldsT r vs
   | _, vs => vs.map showVal
+end
+
+/- reorder the map entries of `v` to the order in which they occur in `tmpl`
+(the model's decode of the implementation's bytes), matching entries by
+normalised key: the encoding of a value with multi-entry maps is fixed only up
+to Go's map iteration order. -/
+mutual
+partial def reorderLike : Ty → Val → Val → Val
+  | .ptr t, .ptr (some a), .ptr (some b) => .ptr (some (reorderLike t a b))
+  | .lslice t, .slice as, .slice bs =>
+      if as.length == bs.length then .slice (List.zipWith (reorderLike t) as bs) else .slice bs
+  | .pslice t, .slice as, .slice bs =>
+      if as.length == bs.length then .slice (List.zipWith (reorderLike t) as bs) else .slice bs
+  | .struct _ fs, .struct as, .struct bs => .struct (reorderFields fs as bs)
+  | .map k vt _, .map (some es1), .map (some es2) =>
+      let picked := es1.filterMap fun (k1, a) =>
+        (es2.find? fun (k2, _) => showVal (k.normPos k2) == showVal k1).map fun (k2, b) => (k2, reorderLike vt a b)
+      if picked.length == es2.length then .map (some picked) else .map (some es2)
+  | _, _, v => v
+partial def reorderFields : Fields → List Val → List Val → List Val
+  | (_, _, t) :: r, a :: as, b :: bs => reorderLike t a b :: reorderFields r as bs
+  | _, _, bs => bs
 end
 
 def showWT (w : WT) : String := toString w.code
